@@ -152,7 +152,8 @@ fn do_compile(opts: &RunOptions, tree: &Expression, paths: &[String]) -> Result<
 }
 
 fn handle(line: &str) -> String {
-    let parts: Vec<&str> = line.split(' ').collect();
+    // fields starting with '#' are annotations for the driver
+    let parts: Vec<&str> = line.split(' ').filter(|p| !p.starts_with('#')).collect();
     let bad = || "BADREQ".to_string();
     match parts[0] {
         "P" => {
